@@ -333,7 +333,9 @@ def C09(ctx):
         "CNFs keep <= 25 literal occurrences so that the prime-product residual hash cannot wrap 128 bits",
         "domain: pops never exceed successful decides; decision labels < num_vars",
     ]
-    model_check(ctx, "MC_Watched", "MC_Watched.cfg", "Watched (as repaired) refines UnitProp over all decide/pop interleavings, 8 CNF shapes", workers=6)
+    model_check(ctx, "MC_Watched", "MC_Watched.cfg", "Watched (as repaired) refines UnitProp and keeps the two-watched-literal invariant (TwoWatch) over all decide/pop interleavings, 8 CNF shapes", workers=6)
+    # proof (TLAPS, any clause, any assignment): TwoWatch implies that the clause is neither falsified nor unit (the fixpoint clause of C09)
+    proof_check(ctx, "WatchLemma", "a clause watched by two distinct non-false literals of its own (or satisfied) is neither falsified nor unit")
     model_check(ctx, "MC_Watched", "MC_Watched_all2.cfg", "all 400 two-clause CNFs over 3 variables, depth 4", workers=8, timeout=1200)
     model_check(ctx, "MC_Watched", "MC_Watched_ascoded.cfg", "regression: the replacement-watch choice as originally coded misses a unit",
                 workers=2, expect_violation=True)
